@@ -394,7 +394,7 @@ class RouteMap(BaseModel):
         # Validate the routing table
         self.model_validate(self)
 
-    def render(self, aw=None):
+    def render(self, aw=None, idx_type="id_t"):
         """Render the SystemVerilog routing table."""
         string = ""
         rules = self.rules.copy()
@@ -402,7 +402,7 @@ class RouteMap(BaseModel):
         string += sv_param_decl(f"{snake_to_camel(self.name)}NumRules", len(rules)) + "\n"
         addr_type = f"logic [{aw-1}:0]" if aw is not None else "id_t"
         rule_type_dict = {}
-        rule_type_dict = {"idx": "id_t", "start_addr": addr_type, "end_addr": addr_type}
+        rule_type_dict = {"idx": idx_type, "start_addr": addr_type, "end_addr": addr_type}
         string += sv_struct_typedef(self.rule_type(), rule_type_dict)
         rules_str = ""
         if not rules:
